@@ -351,7 +351,8 @@ def op_client_seq(pkg, op):
             try:
                 if k == "new":
                     clients.append(client_mod.AuthenticatedClient(base_url="http://testserver", token=st["tok"], prefix=st["pre"], auth_header_name=st["auth"],
-                                                                  headers=dict(st.get("headers") or {}), httpx_args={"transport": httpx.MockTransport(handler)}))
+                                                                  headers=dict(st.get("headers") or {}), cookies=dict(st.get("cookies") or {}),
+                                                                  httpx_args={"transport": httpx.MockTransport(handler)}))
                     out.append(None)
                 elif k == "evolve_token":
                     clients.append(attrs.evolve(clients[st["i"]], token=st["tok"])); out.append(None)
@@ -363,7 +364,7 @@ def op_client_seq(pkg, op):
                     if how == "with_timeout":
                         clients.append(c.with_timeout(httpx.Timeout(5.0)))
                     elif how == "with_cookies":
-                        clients.append(c.with_cookies({"ck": "v"}))
+                        clients.append(c.with_cookies(dict(st.get("cookies") or {"ck": "v"})))
                     else:
                         clients.append(attrs.evolve(c, raise_on_unexpected_status=True))
                     out.append(None)
@@ -382,7 +383,13 @@ def op_client_seq(pkg, op):
                     if len(reqs) != 1:
                         out.append({"exc": {"type": "RequestCount", "msg": str(len(reqs))}})
                     else:
-                        out.append({"vals": reqs[0].headers.get_list(c.auth_header_name), "all": [[a, b] for a, b in reqs[0].headers.multi_items()]})
+                        ck = {}
+                        for hv in reqs[0].headers.get_list("cookie"):
+                            for part in hv.split(";"):
+                                if "=" in part:
+                                    a, b = part.strip().split("=", 1)
+                                    ck[a] = b
+                        out.append({"vals": reqs[0].headers.get_list(c.auth_header_name), "all": [[a, b] for a, b in reqs[0].headers.multi_items()], "cookies": ck})
                 else:
                     out.append({"exc": {"type": "BadStep", "msg": k}})
             except BaseException as e:  # noqa
